@@ -72,6 +72,8 @@ type instance struct {
 	// lifetime and loads every received key into it (per run; never shared across runs)
 	newVerifier   func() func(pk, msg []byte, ctx string, sig []byte) bool
 	infPK, infSig []byte // encodings of the group identity as key and as signature, if the format has them
+	// unlimited: a signer of another implementation that does not enforce the context limit
+	unlimited func(sk, msg []byte, ctx string) []byte
 	// refSign: an independent implementation of the (deterministic) scheme, if one exists offline
 	// (Go's crypto/ed25519 for Ed25519, Ed25519ctx, Ed25519ph); nil result = not applicable
 	refSign func(seed, msg []byte, ctx string) []byte
@@ -239,6 +241,9 @@ func edVariant(name string) *instance {
 		ph := name == "Ed25519ph"
 		in := &instance{name: name, seedSize: 32, sigSize: 64, ctxOK: true, ctxMust: !ph, sOff: 32, sLen: 32, order: l25519, pubInSk: [2]int{32, 64}}
 		in.refSign = stdEd25519(ph, !ph)
+		in.unlimited = func(sk, m []byte, c string) []byte {
+			return ed25519.VerifSignAll(ed25519.PrivateKey(sk), m, []byte(c), ph)
+		}
 		in.derive = func(seed []byte) ([]byte, []byte) {
 			sk := ed25519.NewKeyFromSeed(seed)
 			return append([]byte{}, sk.Public().(ed25519.PublicKey)...), append([]byte{}, sk...)
@@ -730,6 +735,12 @@ func exec(planJSON []byte, run *core.Run) {
 			pan, _, _ := core.Try(func() { s256 = signf(msg, vctx) })
 			if !pan && len(s256) == in.sigSize {
 				vsig = s256 // if the signer produced something, the verifier must still refuse it
+			}
+			if in.unlimited != nil {
+				// a signer elsewhere that knows no limit: the length octet of its domain string
+				// wraps around; the signature is well formed, only the context is inadmissible
+				vsig = in.unlimited(skB, msg, vctx)
+				run.Fault("adversary:signer-without-context-limit")
 			}
 		case "pk-other":
 			vpk = append([]byte{}, pkOther...)
